@@ -40,7 +40,7 @@ ASSUMPTIONS = [
     'logic.basic.os and logic.basic.load_json_data are replaced by stubs over an in-memory library of 4 files (username master); contents are versions listed in the harness',
     'modification times are symbolic integers; a write to a file yields a time different from the previous time of that file (nothing else is assumed)',
     'a failing read raises OSError once, during the first read of the named file in that operation',
-    'reference = the same loader from cold caches (theory_cache / item_index cleared) on the final file contents',
+    'reference = the same loader from a cold start on the final file contents: every module-level container of logic.basic is put back to its import-time value (taken from a private second execution of the module source), before each history and before the reference load',
     'PYTHONHASHSEED pinned',
 ]
 RULE = ('one evaluation = one explored path of one history (all modification times consistent with the path); distinct = distinct (history, target, path); '
@@ -87,7 +87,7 @@ VERSIONS = {
 
 def bounds(tier):
     return {'virtual_files': FILES, 'versions': {k: len(v) for k, v in VERSIONS.items()}, 'history_length': 3 if tier == 'quick' else 4,
-            'histories': 'quick: all histories of <= 2 operations before the final load + 1500 seeded of length 3; thorough: all of length <= 3 + 20000 seeded of length 4',
+            'histories': 'quick: all histories of <= 2 operations before the final load + 96 cycle-recovery histories (load, close the import cycle, load, reopen it) + 1500 seeded of length 3; thorough: all of length <= 3 + 20000 seeded of length 4',
             'operations': 'load(name) / load(name, limit) / load(name, missing limit) / write(name, version) / failing load(name)', 'modification_times': 'symbolic integers'}
 
 
@@ -152,20 +152,47 @@ class FakeOS:
         return [f + '.json' for f in FILES]
 
 
+_PRISTINE = {}
+
+
+def pristine_reset():
+    """Put every module-level container of logic.basic back to its import-time value (what a new process would start with):
+    the values come from executing a second, private copy of the module's current source, so state that a changed loader keeps
+    in globals of its own is reset as well."""
+    import copy
+    from logic import basic
+    if 'vals' not in _PRISTINE:
+        import importlib.util
+        spec = importlib.util.spec_from_file_location('logic._basic_pristine_copy', basic.__file__)
+        m = importlib.util.module_from_spec(spec)
+        spec.loader.exec_module(m)
+        _PRISTINE['vals'] = {k: copy.deepcopy(v) for k, v in vars(m).items() if isinstance(v, (dict, list, set)) and not k.startswith('__')}
+    for k, v in _PRISTINE['vals'].items():
+        cur = getattr(basic, k, None)
+        if isinstance(cur, dict) and isinstance(v, dict):
+            cur.clear()
+            cur.update(copy.deepcopy(v))
+        elif isinstance(cur, list) and isinstance(v, list):
+            cur[:] = copy.deepcopy(v)
+        elif isinstance(cur, set) and isinstance(v, set):
+            cur.clear()
+            cur.update(copy.deepcopy(v))
+        else:
+            setattr(basic, k, copy.deepcopy(v))
+
+
 def install(vfs):
     from logic import basic
     basic.os = FakeOS(vfs)
     basic.load_json_data = lambda filename, username='master': vfs.read(filename)
-    basic.theory_cache.clear()
-    basic.item_index.clear()
+    pristine_reset()
 
 
 def uninstall():
     from logic import basic
     import importlib
     basic.os = os
-    basic.theory_cache.clear()
-    basic.item_index.clear()
+    pristine_reset()
 
     def load_json_data(filename, username="master"):
         import json
@@ -239,9 +266,7 @@ def run_history(hist, target, out, twin):
                     vfs.write(op[1], op[2])
             got = do_load(*target)
             # reference: cold caches, same contents
-            from logic import basic
-            basic.theory_cache.clear()
-            basic.item_index.clear()
+            pristine_reset()
             want = do_load(*target)
         finally:
             uninstall()
@@ -310,6 +335,13 @@ def units(tier, seed):
         for h in itertools.product(ops, repeat=3):
             if sum(op[0] != 'load' for op in h) >= 1 and h[0][0] in ('load', 'fail'):
                 hs.append(h)
+    # recovery from a cycle: load, close the cycle va -> vb -> va, a load that reports it, rewrite vb without the cycle (then the final load)
+    cyc = len(VERSIONS['vb']) - 1
+    for f1 in FILES:
+        for f2 in FILES:
+            for v in range(cyc):
+                hs.append((('load', f1, None), ('write', 'vb', cyc), ('load', f2, None), ('write', 'vb', v)))
+                hs.append((('load', f1, None), ('write', 'vb', cyc), ('load', f2, None), ('write', 'vb', v), ('write', 'vc', 2)))
     rnd = random.Random('c12-%s' % seed)
     n3 = 1500 if tier == 'quick' else 20000
     L = 3 if tier == 'quick' else 4
